@@ -77,7 +77,7 @@ def cap_cases(ctx, scale=1):
 
     def cap(ra, dec, rad, dorot, u, upsi, fam, gen=None):
         gen = gen or r.choice(STUBS)
-        if ctx.quick() and not fam.startswith("cap/pole"):
+        if ctx.quick():
             u, upsi = u[:1], upsi[:1]            # quick tier: the designated (edge) deviate only
         cs.append({"kind": "cap", "ra": float(ra), "dec": float(dec), "rad": float(rad), "dorot": bool(dorot),
                    "gen": gen, "seed": None, "nrand": len(u), "dev": [[float(x) for x in u], [float(x) for x in upsi]],
@@ -91,10 +91,10 @@ def cap_cases(ctx, scale=1):
             cap(r.random() * 360, dec, rad, r.random() < 0.5, [1.0, r.random()], [r.random(), r.choice(edge_p)], "cap/pole")
     for dec in (89.9, -89.9, 89.89999999999999, -89.89999999999999, 89.95, 89.99999):
         cap(r.random() * 360, dec, _radius(r), False, [r.random(), 1.0], [r.random(), r.random()], "cap/near-pole-threshold")
-    for ra in (0.0, 360.0, 359.99999999999994, 1e-12, 180.0):
-        for dorot in (False, True):
+    for k_, ra in enumerate((0.0, 360.0, 359.99999999999994, 1e-12, 180.0)):
+        for dorot in (((False, True)[k_ % 2],) if ctx.quick() else (False, True)):
             cap(ra, r.uniform(-80, 80), r.choice([1e-6, 0.5, 30.0]), dorot, [r.random(), 1.0], [0.25, 0.75], "cap/seam")
-    for rad in (1e-6, 1.7e-6, 1e-5, 1e-4):
+    for rad in ((1e-6, 1e-5) if ctx.quick() else (1e-6, 1.7e-6, 1e-5, 1e-4)):
         for dorot in (False, True):
             ra, dec = _sphere_point(r)
             cap(ra, dec, rad, dorot, [1.0, r.random()], [r.random(), r.random()], "cap/tiny-radius")
@@ -104,10 +104,10 @@ def cap_cases(ctx, scale=1):
             cap(ra, dec, rad, dorot, [1.0, r.random()], [r.random(), r.random()], "cap/antipode")
     # points that land on / beyond a pole
     for (dec, rad, up) in ((60.0, 30.0, 0.5), (-60.0, 30.0, 0.0), (60.0, 50.0, 0.5), (-45.0, 100.0, 0.0), (0.0, 90.0, 0.5)):
-        for dorot in (False, True):
+        for dorot in ((r.random() < 0.4,) if ctx.quick() else (False, True)):
             cap(r.random() * 360, dec, rad, dorot, [1.0], [up], "cap/lands-on-pole")
     for u in edge_u:
-        for p in edge_p[:3]:
+        for p in (edge_p[:2] if ctx.quick() else edge_p[:3]):
             ra, dec = _sphere_point(r)
             cap(ra, dec, _radius(r), r.random() < 0.3, [u], [p], "cap/edge-deviates")
     # input forms of the centre / radius / count (values exactly representable in every form, so each form denotes the
@@ -124,8 +124,25 @@ def cap_cases(ctx, scale=1):
             cap(ra, dec, rad, (k % 3 == 0), [1.0, r.random()], [r.random(), r.random()], "cap/forms/" + form)
             cs[-1].update({"form": form, "kw": ("explicit", "omit", "positional")[k % 3], "nrand_np": k % 2 == 1})
             k += 1
+    # exact special values: zero radius, negative zero centre, centre exactly on the equator / prime meridian with rotation
+    cap(-0.0, -0.0, 1.0, False, [1.0], [r.random()], "cap/special-values")
+    cap(-0.0, 45.0, 2.0, True, [1.0], [r.random()], "cap/special-values")
+    cap(r.random() * 360, r.uniform(-80, 80), 0.0, False, [1.0], [r.random()], "cap/special-values")
+    cap(r.random() * 360, 90.0, 0.0, False, [r.random()], [r.random()], "cap/special-values")
+    cap(0.0, 0.0, 90.0, True, [1.0], [0.5], "cap/special-values")
+    # HISTORY: earlier calls through the SAME centre / radius array objects, overwritten in place before the judged call
+    for form in ("len1", "0d"):
+        for mode in ("refill", "fresh-equal-object"):
+            for polar in (False, True):
+                def vals(pl):
+                    return {"ra": float(r.randrange(0, 360)) + 0.5, "dec": r.choice([90.0, -90.0]) if pl else float(r.randrange(-80, 80)) + 0.25,
+                            "rad": r.choice([0.5, 2.0, 30.0])}
+                v = vals(polar)
+                cap(v["ra"], v["dec"], v["rad"], False, [1.0], [r.random()], "cap/history/%s/%s" % (mode, form))
+                hist = [dict(vals(r.random() < 0.5), dev=[[r.random()], [r.random()]], dorot=r.random() < 0.3) for _k in range(r.choice([1, 2]))]
+                cs[-1].update({"form": form, "kw": "explicit", "nrand_np": False, "history": hist, "hist_mode": mode})
     # seeded random: stub and real generators, both branches
-    for _ in range(int(ctx.n(12, 240) * scale)):
+    for _ in range(int(ctx.n(8, 240) * scale)):
         ra, dec = _sphere_point(r)
         n = r.choice([1, 2] if ctx.quick() else [1, 2, 3])
         c = {"kind": "cap", "ra": ra, "dec": dec, "rad": _radius(r), "dorot": r.random() < 0.4,
@@ -151,14 +168,15 @@ def box_cases(ctx, scale=1):
     box(None, None, [r.random(), 0.0], [r.random(), 0.0], "box/full-sphere-default")
     box([0.0, 360.0], [-90.0, 90.0], e, [1.0 - 2.0 ** -53, 0.0, r.random()], "box/full-sphere")
     box([0.0, 360.0], [-90.0, 90.0], [1.0], [1.0], "box/full-sphere-u=1")
-    for _ in range(3):
+    for _ in range(ctx.n(2, 3)):
         a, d = r.random() * 360, r.uniform(-89, 89)
         box([a, a], [d, d], [r.random()], [r.random()], "box/zero-width")
         box([a, a], [-90.0, 90.0], [r.random()], [r.random()], "box/zero-width-ra")
         box([0.0, 360.0], [d, d], [r.random()], [r.random()], "box/zero-width-dec")
     box([10.0, 35.0], [-25.0, 15.0], [r.random(), 0.0, 1.0], [r.random(), 1.0, 0.0], "box/docstring-example")
-    for d0, d1 in ((89.0, 90.0), (-90.0, -89.5), (89.999, 89.9999), (-89.99999, -89.9999), (90.0, 90.0), (-90.0, -90.0),
-                   (89.9999999, 90.0)):
+    for d0, d1 in (((89.0, 90.0), (-89.99999, -89.9999), (90.0, 90.0), (-90.0, -90.0)) if ctx.quick() else
+                   ((89.0, 90.0), (-90.0, -89.5), (89.999, 89.9999), (-89.99999, -89.9999), (90.0, 90.0), (-90.0, -90.0),
+                    (89.9999999, 90.0))):
         box([0.0, 360.0], [d0, d1], [r.random(), r.random()], [r.random(), r.choice([0.0, 1.0 - 2.0 ** -53])], "box/polar")
     box([359.9999, 360.0], [-1.0, 1.0], [r.random()], [r.random()], "box/seam")
     box([0.0, 1e-9], [-1e-9, 1e-9], [r.random()], [r.random()], "box/seam")
@@ -173,6 +191,17 @@ def box_cases(ctx, scale=1):
         box([a0, a1], [d0, d1], [r.random(), 0.0], [r.random(), 1.0 - 2.0 ** -53], "box/forms/" + form)
         cs[-1].update({"form": form, "kw": ("explicit", "omit", "positional")[k % 3], "nrand_np": k % 2 == 1})
         k += 1
+    # HISTORY: earlier calls through the SAME range array objects (float64 / int64 arrays), overwritten in place
+    for form in ("nd_f8", "nd_i8"):
+        for mode in ("refill", "fresh-equal-object"):
+            def rg():
+                a0, a1 = sorted((float(r.randrange(0, 361)), float(r.randrange(0, 361))))
+                d0, d1 = sorted((float(r.randrange(-90, 91)), float(r.randrange(-90, 91))))
+                return {"ra_range": [a0, a1], "dec_range": [d0, d1]}
+            v = rg()
+            box(v["ra_range"], v["dec_range"], [r.random()], [r.choice([0.0, 1.0 - 2.0 ** -53])], "box/history/%s/%s" % (mode, form))
+            hist = [dict(rg(), dev=[[r.random()], [r.random()]]) for _k in range(r.choice([1, 2]))]
+            cs[-1].update({"form": form, "kw": "explicit", "nrand_np": False, "history": hist, "hist_mode": mode})
     for _ in range(int(ctx.n(8, 130) * scale)):
         a0, a1 = sorted((r.random() * 360, r.random() * 360))
         d0, d1 = sorted((r.uniform(-90, 90), r.uniform(-90, 90)))
@@ -229,12 +258,25 @@ def _wrap_range(rg, form):
     return list(rg)
 
 
-def _call_geo(c, rng):
+def _fill(shared, key, value, form):
+    """the argument object of a SEQUENCE of calls: created once, afterwards overwritten in place"""
+    if key not in shared:
+        shared[key] = value
+    elif isinstance(shared[key], np.ndarray) and isinstance(value, np.ndarray) and shared[key].shape == value.shape:
+        shared[key][...] = value
+    else:
+        shared[key] = value
+    return shared[key]
+
+
+def _call_geo(c, rng, shared=None):
     from esutil import coords
     form, kw = c.get("form"), c.get("kw", "explicit")
     n = np.int64(c["nrand"]) if c.get("nrand_np") else c["nrand"]
     if c["kind"] == "cap":
         args = [_wrap(c[k], form) for k in ("ra", "dec", "rad")]
+        if shared is not None:
+            args = [_fill(shared, k, a, form) for k, a in zip(("ra", "dec", "rad"), args)]
         keep = [a.copy() if isinstance(a, np.ndarray) else a for a in args]
         if kw == "positional":
             o = coords.randcap(n, args[0], args[1], args[2], True, c["dorot"], rng)
@@ -244,6 +286,8 @@ def _call_geo(c, rng):
             o = coords.randcap(n, args[0], args[1], args[2], get_radius=True, dorot=c["dorot"], rng=rng)
     else:
         args = [_wrap_range(c["ra_range"], form), _wrap_range(c["dec_range"], form)]
+        if shared is not None:
+            args = [_fill(shared, k, a, form) for k, a in zip(("ra_range", "dec_range"), args)]
         keep = [a.copy() if isinstance(a, np.ndarray) else a for a in args]
         if kw == "positional":
             o = coords.randsphere(n, args[0], args[1], c["system"], rng)
@@ -261,14 +305,27 @@ def run_geo(c):
     flat = [x for blk in c["dev"] for x in blk]
     rng = c19_rng.make(c["gen"], c.get("seed"), flat)
     try:
-        o, same = _call_geo(c, rng)
+        shared = None
+        same_h = True
+        if c.get("history"):
+            # earlier calls of the same process through the SAME argument objects (arrays refilled in place)
+            shared = {}
+            for h in c["history"]:
+                hc = dict(c, **h)
+                hc.pop("history", None)
+                _o, sm = _call_geo(hc, c19_rng.make(c["gen"], None, [x for blk in h["dev"] for x in blk]), shared)
+                same_h = same_h and sm
+            if c.get("hist_mode") == "fresh-equal-object":
+                shared = None
+        o, same = _call_geo(c, rng, shared)
+        same = same and same_h
         cols = [np.asarray(a, dtype="f8").ravel() for a in o]
         out = {"ok": True, "ncols": len(cols), "lens": [int(a.size) for a in cols],
                "points": [[float(a[i]) for a in cols] for i in range(min(int(a.size) for a in cols))],
                "inputs_unchanged": bool(same)}
         if c.get("form") is not None:
             # a second call with the same arguments and an equal generator must give the same arrays
-            o2, _ = _call_geo(c, c19_rng.make(c["gen"], c.get("seed"), flat))
+            o2, _ = _call_geo(c, c19_rng.make(c["gen"], c.get("seed"), flat), shared)
             cols2 = [np.asarray(a, dtype="f8").ravel() for a in o2]
             out["repeat_identical"] = bool(len(cols2) == len(cols) and all(a.tobytes() == b.tobytes() for a, b in zip(cols, cols2)))
     except Exception as e:  # noqa
@@ -441,11 +498,17 @@ def _nontrivial_geo(c, i):
     return a1 > a0 or d1 > d0
 
 
+def geometry_cases(ctx):
+    return [c for c in corpus_cases(ctx.pid, "geometry")] + cap_cases(ctx) + box_cases(ctx)
+
+
 def geometry(ctx, replay_case=None):
-    if replay_case is not None:
-        cases = [replay_case]
-    else:
-        cases = [c for c in corpus_cases(ctx.pid, "geometry")] + cap_cases(ctx) + box_cases(ctx)
+    geometry_certify(ctx, geometry_prepare(ctx, [replay_case] if replay_case is not None else geometry_cases(ctx)), replay_case)
+
+
+def geometry_prepare(ctx, cases):
+    """run the REAL code on every case (main thread, in case order: the history sequences depend on it) and print the
+    certificates to be compiled"""
     items = []      # [case, point index, point, role, (statement, proof), negation, impl output]
     for c in cases:
         out = run_geo(c)
@@ -480,6 +543,10 @@ def geometry(ctx, replay_case=None):
             if prop is not None:
                 items.append([c, i, pt, "property", prop, neg, out])
             items.append([c, i, pt, "model", model, None, out])
+    return items
+
+
+def geometry_certify(ctx, items, replay_case=None):
     # routing by the pre-screen
     good, suspect, skipped, nsus = [], [], [], {}
     for it in items:
@@ -560,23 +627,37 @@ class ParEntry(Entry):
     generated (runner.run_entry puts all terms of an entry into one file = one process).  The runner then
     receives, for exactly those case objects, the value coqc printed; corpus and replay cases (other
     objects) go through impl_real/term_real inside the runner as usual."""
-    shard = 12
+    shard = 16
 
     def __init__(self):
         self._cache = {}
+        self._prep = {}
 
-    def cases(self, ctx, round=0):
+    def prepare(self, ctx, round=0):
+        """main thread: draw the cases and run the REAL code on them, in order"""
         cs = self.make_cases(ctx, round)
         outs = [self.impl_real(c) for c in cs]
         terms = [self.term_real(c, o) for c, o in zip(cs, outs)]
+        self._prep[round] = [cs, outs, terms, False]
+
+    def evaluate(self, ctx, round=0):
+        """any thread: let coqc evaluate the verdict terms"""
+        cs, outs, terms, _done = self._prep[round]
+        self._prep[round][3] = True
         try:
             vals = core.coq_eval(os.path.join(ctx.work, "par_%s_%d" % (self.name, round)), PRE_Q, terms,
                                  shard=self.shard, tag="p")
         except core.CoqEvalError:
-            return cs                      # the runner evaluates (and reports) it itself
+            return                         # the runner evaluates (and reports) it itself
         for c, o, v in zip(cs, outs, vals):
             self._cache[id(c)] = (c, o, "(%s)%%Z" % v.replace("%Z", "").strip("() "))
-        return cs
+
+    def cases(self, ctx, round=0):
+        if round not in self._prep:
+            self.prepare(ctx, round)
+        if not self._prep[round][3]:
+            self.evaluate(ctx, round)
+        return self._prep.pop(round)[0]
 
     def impl(self, c):
         h = self._cache.get(id(c))
@@ -630,7 +711,7 @@ class SkyDiscrete(ParEntry):
                  "family": "box", "form": form, "kw": r.choice(["explicit", "omit"]), "nrand_np": r.random() < 0.3, "system": "eq"}
             c.update(kw)
             cs.append(c)
-        for _ in range(ctx.n(36, 300)):
+        for _ in range(ctx.n(28, 300)):
             n = r.choice([0, 1, 2, 7, 50])
             (cap if r.random() < 0.6 else box)(n, r.choice(REALS))
         if round == 0:
@@ -787,7 +868,8 @@ class GeneratorEntry(ParEntry):
                        "nodes": [0, 1], "gen": "stub_legacy", "scalar": False, "family": "hand"})
             for n in ((3, 5, 17) if ctx.quick() else (3, 4, 5, 17)):
                 for gk in ("uniform", "integers", "irregular"):
-                    for dk in ("flat", "wide", "small-integers", "random"):
+                    for dk in (r.sample(["flat", "wide", "small-integers", "random"], 2) if ctx.quick()
+                               else ("flat", "wide", "small-integers", "random")):
                         cs.append(one(n, gk, dk))
             for n in (0, 1, 2):                     # not enough grid points: rejected, not required
                 c = one(max(n, 0), "integers", "flat", fam="rejected/grid-of-%d" % n)
@@ -843,13 +925,36 @@ class GeneratorEntry(ParEntry):
                 c["p"], c["mode"], c["nodes"] = cum, "cum", []
                 cs.append(c)
             # long request (2^k + 1): pairwise monotonicity checker off, value-by-value agreement on
+            # HISTORY: earlier Generators built in the same process from the SAME table ndarray objects (contents overwritten
+            # in place before the judged construction), grids sharing length / first / last value with different interiors and
+            # densities, a fresh object with equal contents; and ONE Generator object asked several times (split requests)
+            for mode in ("refill", "same-ends", "fresh-equal-object"):
+                for tmode in ("table", "func_x"):
+                    n = r.choice([5, 9])
+                    c = one(n, "irregular", "random", mode=tmode, fam="history/%s/%s" % (mode, tmode))
+                    hist = []
+                    for _k in range(r.choice([1, 2])):
+                        h = one(n, "irregular", "wide", mode=tmode)
+                        if mode == "same-ends":
+                            hx = sorted([c["x"][0], c["x"][-1]] + [r.uniform(c["x"][0], c["x"][-1]) for _ in range(n - 2)])
+                            if len(set(hx)) == n:
+                                h["x"] = hx
+                        hist.append({"x": h["x"], "p": h.get("p"), "coef": h.get("coef"), "us": h["us"][:3]})
+                    c["history"], c["hist_mode"] = hist, mode
+                    cs.append(c)
+            for _k in range(3):
+                c = one(r.choice([4, 8]), "uniform", "random", fam="one-generator-several-requests")
+                c["nodes"] = []
+                k1 = r.randrange(1, len(c["us"]) - 1)
+                c["split"] = [k1, None, len(c["us"]) - k1 - 1]        # sample(k1), sample() scalar, sample(rest)
+                cs.append(c)
             # long requests (beyond any plausible internal block size): the count is compared here, the Coq term carries the
             # pairs at both ends, around every power of two, at the extremes of the output and at sampled positions
             for nlong in ((16385,) if ctx.quick() else (16385, 65537, 100003)):      # 2^k + 1: one element beyond every block size 2^j <= 2^k
                 c = one(9, "irregular", "random", fam="long-request")
                 c["long"], c["nodes"], c["long_seed"] = nlong, [], r.randrange(2 ** 31)
                 cs.append(c)
-        for _ in range(ctx.n(24, 600)):
+        for _ in range(ctx.n(10, 600)):
             n = r.choice([3, 4, 6, 10, 25, r.randrange(3, ctx.n(25, 120))])
             cs.append(one(n, r.choice(["uniform", "integers", "irregular"]), r.choice(["flat", "wide", "small-integers", "random"]),
                           mode=r.choice(["table", "table", "func_x", "func_range"]), nus=r.choice([2, 6, 12])))
@@ -870,7 +975,38 @@ class GeneratorEntry(ParEntry):
 
         form, opt = c.get("form"), c.get("opt")
 
+        shared = {}
+
+        def tables():
+            """the table arguments; in a sequence the same ndarray objects, refilled in place"""
+            if not c.get("history"):
+                return (None if c["mode"] not in ("table", "cum") else _arr(c["p"], form)), _arr(c["x"], form)
+            if not shared:
+                h0 = c["history"][0]
+                shared["x"] = np.array(h0["x"], dtype="f8")
+                shared["p"] = None if h0["p"] is None else np.array(h0["p"], dtype="f8")
+                for k, h in enumerate(c["history"]):
+                    if k > 0:
+                        shared["x"][:] = h["x"]
+                        if shared["p"] is not None:
+                            shared["p"][:] = h["p"]
+                    hr = c19_rng.make(c["gen"], None, h["us"])
+                    hp = _poly(*h["coef"]) if shared["p"] is None else shared["p"]
+                    er.Generator(hp, x=shared["x"], rng=hr).sample(len(h["us"]))
+                if c.get("hist_mode") == "fresh-equal-object":
+                    shared["x"] = np.array(c["x"], dtype="f8")
+                    shared["p"] = None if shared["p"] is None else np.array(c["p"], dtype="f8")
+                else:
+                    shared["x"][:] = c["x"]
+                    if shared["p"] is not None:
+                        shared["p"][:] = c["p"]
+            return shared["p"], shared["x"]
+
         def build(us):
+            if c.get("history"):
+                pt, xt = tables()
+                rng = c19_rng.make(c["gen"], None, us)
+                return er.Generator(_poly(*c["coef"]) if pt is None else pt, x=xt, rng=rng), rng
             if c["gen"] == "seed":
                 return er.Generator(_arr(c["p"], form), x=_arr(c["x"], form), seed=c["seed"]), None
             rng = c19_rng.make(c["gen"], None, us)
@@ -897,6 +1033,10 @@ class GeneratorEntry(ParEntry):
             g, rng = build(us)
             if c["scalar"]:
                 vals = [float(g.sample())]
+            elif c.get("split"):
+                vals = []
+                for k in c["split"]:
+                    vals += [float(g.sample())] if k is None else [float(v) for v in g.sample(k)]
             elif opt == "alias":
                 vals = [float(v) for v in g.genrand(len(us))]
             elif opt == "n_np":
@@ -1024,7 +1164,7 @@ class CholeskyEntry(ParEntry):
                 c["flat"] = [float(v) for v in np.random.RandomState(c["seed"]).randn(npar * n)]
             cs.append(c)
         apis = ["class", "class_scalar", "func", "func_nomean"]
-        for _ in range(ctx.n(24, 400)):
+        for _ in range(ctx.n(16, 400)):
             one(r.choice([1, 2, 3, 4, 5]), r.choice(apis))
         if round == 0:
             for form in CHOL_COV_FORMS:
@@ -1042,6 +1182,30 @@ class CholeskyEntry(ParEntry):
                     one(r.choice([2, 3]), api, dist_dtype=dt, fam="forms/dist-%s/%s" % (dt, api))
             one(3, "class", cov_form="int", mean_form="int", dist_dtype="int", fam="forms/all-integer/class")
             one(3, "func", cov_form="int", mean_form="int", dist_dtype="int", fam="forms/all-integer/func")
+            # HISTORY: earlier calls in the same process made with the SAME covariance / mean ndarray objects, whose contents
+            # are overwritten in place before the judged call (a cache keyed by object identity, shape or first/last
+            # element would answer with the factor of an earlier call); variants: refill `cov[:, :] = ...`, `cov *= 4`,
+            # and a fresh object with equal contents after the buffer
+            for api in ("func", "class", "func_nomean"):
+                for mode in ("refill", "scale", "fresh-equal-object"):
+                    npar = r.choice([2, 3, 5])
+                    one(npar, api, fam="history/%s/%s" % (mode, api))
+                    final = cs[-1]
+                    hist = []
+                    for _k in range(r.choice([1, 2])):
+                        one(npar, api, n=final["n"])
+                        h = cs.pop()
+                        hist.append({"cov": h["cov"], "mean": h["mean"], "flat": h["flat"]})
+                    if mode == "scale":
+                        final["cov"] = [[4.0 * v for v in row] for row in hist[-1]["cov"]]
+                    final["history"], final["hist_mode"], final["n_np"] = hist, mode, False
+            # exact special values: diagonal covariance (zero off-diagonals), zero mean, all deviates zero
+            for api in ("class", "func"):
+                one(3, api, fam="special-values/diagonal-cov/" + api)
+                cs[-1]["cov"] = [[cs[-1]["cov"][i][j] if i == j else 0.0 for j in range(3)] for i in range(3)]
+                one(2, api, fam="special-values/zero-mean-zero-deviates/" + api)
+                cs[-1]["mean"] = [0.0, -0.0]
+                cs[-1]["flat"] = [0.0] * len(cs[-1]["flat"])
             for npar in (2, 5):
                 one(npar, "class_twice", fam="two-calls-one-sampler")
                 one(npar, "class_nodist", fam="default-deviate-source/class")
@@ -1068,6 +1232,30 @@ class CholeskyEntry(ParEntry):
             n = np.int64(c["n"]) if c.get("n_np") else c["n"]
             api = c["api"]
             s2 = None
+            if c.get("history"):
+                # the same two ndarray objects serve every call of the sequence
+                cov = np.array(c["history"][0]["cov"], dtype="f8")
+                mean = None if c["mean"] is None else np.array(c["history"][0]["mean"], dtype="f8")
+                for k, h in enumerate(c["history"]):
+                    if k > 0:
+                        cov[:, :] = np.array(h["cov"], dtype="f8")
+                        if mean is not None:
+                            mean[:] = h["mean"]
+                    hd = lambda m, h=h: np.array(h["flat"][:int(m)], dtype="f8")    # noqa
+                    if api.startswith("class"):
+                        er.CholeskySampler(mean, cov, dist=hd).sample(n)
+                    else:
+                        er.cholesky_sample(cov, n, means=mean, dist=hd)
+                if c.get("hist_mode") == "scale":
+                    cov *= 4.0
+                elif c.get("hist_mode") == "fresh-equal-object":
+                    cov = np.array(c["cov"], dtype="f8")
+                else:
+                    cov[:, :] = np.array(c["cov"], dtype="f8")
+                if mean is not None:
+                    mean[:] = c["mean"]
+                if not np.array_equal(cov, keep):
+                    raise AssertionError("harness: sequence did not arrive at the judged covariance")
             if api.endswith("_nodist"):
                 np.random.seed(c["seed"])
             if api.startswith("class"):
@@ -1081,7 +1269,7 @@ class CholeskyEntry(ParEntry):
                     if M2 is not M or not np.array_equal(np.asarray(M2), np.asarray(M)):
                         raise AssertionError("factor changed between two sample() calls")
             else:
-                M = np.linalg.cholesky(np.asarray(cov))            # the oracle call cholesky_sample makes
+                M = np.linalg.cholesky(np.array(cov, dtype=np.asarray(cov).dtype, copy=True))   # the oracle, on a private copy
                 if api == "func_nodist":
                     s = er.cholesky_sample(cov, n, means=mean)
                 else:
@@ -1134,7 +1322,7 @@ class RandomIndices(ParEntry):
                     for unique in (True, False):
                         cs.append({"imax": imax, "nrand": nrand, "unique": unique, "gen": r.choice(["legacy", "new", "seed"]),
                                    "seed": r.randrange(2 ** 31), "family": "small-scope"})
-        for _ in range(ctx.n(50, 400)):
+        for _ in range(ctx.n(36, 400)):
             imax = r.choice([r.randrange(1, 20), r.randrange(1, 1000), r.randrange(1, 10 ** 6)])
             unique = r.random() < 0.6
             nrand = r.choice([0, 1, imax, imax + 1, r.randrange(0, min(imax, 200) + 1), r.randrange(0, 300)])
@@ -1147,6 +1335,19 @@ class RandomIndices(ParEntry):
             for k in range(4):                                 # neither rng nor seed: a fresh default_rng()
                 cs.append({"imax": r.randrange(2, 50), "nrand": r.randrange(0, 12), "unique": k % 2 == 0, "gen": "none", "seed": 0,
                            "family": "rng-and-seed-omitted", "form": "py", "unique_kw": "omit" if k % 2 == 0 else "given"})
+            # HISTORY: ONE generator object serves a sequence of calls with other (imax, nrand, unique); the judged call is the
+            # last one, the repetition replays the whole sequence on an equal generator
+            for _k in range(ctx.n(8, 40)):
+                imax = r.randrange(2, 40)
+                hist = [{"imax": r.choice([imax, r.randrange(1, 60)]), "nrand": r.randrange(0, 8), "unique": r.random() < 0.5}
+                        for _j in range(r.choice([1, 2, 3]))]
+                for h in hist:
+                    if h["unique"]:
+                        h["nrand"] = min(h["nrand"], h["imax"])
+                unique = r.random() < 0.6
+                cs.append({"imax": imax, "nrand": r.randrange(0, imax + 1) if unique else r.randrange(0, 2 * imax), "unique": unique,
+                           "gen": r.choice(["legacy", "new"]), "seed": r.randrange(2 ** 31), "family": "history/one-generator",
+                           "form": "py", "unique_kw": r.choice(["given", "omit"]), "history": hist})
             # large populations / long selections (numpy switches algorithm with the population size)
             for imax, nrand in (((100003, 1025), (65537, 1023)) if ctx.quick() else ((100003, 4097), (65537, 4095), (2 ** 31 + 11, 1025))):
                 for unique in (True, False):
@@ -1168,6 +1369,11 @@ class RandomIndices(ParEntry):
                 o = er.random_indices(imax, nrand, **kw)
             elif form == "positional":
                 o = er.random_indices(imax, nrand, c["unique"], c19_rng.make(c["gen"], c["seed"]))
+            elif c.get("history"):
+                g = c19_rng.make(c["gen"], c["seed"])
+                for h in c["history"]:
+                    er.random_indices(h["imax"], h["nrand"], unique=h["unique"], rng=g)
+                o = er.random_indices(imax, nrand, rng=g, **kw)
             else:
                 o = er.random_indices(imax, nrand, rng=c19_rng.make(c["gen"], c["seed"]), **kw)
             o = np.asarray(o)
@@ -1288,7 +1494,37 @@ def run(ctx, replay=None):
     if replay is not None and replay.get("kind") == "source-tie":
         source_tie(ctx)
         return
-    if replay is None:
-        source_tie(ctx)
-        geometry(ctx)
-    differential(ctx, PRE_Q, ENTRIES, replay)
+    if replay is not None:
+        differential(ctx, PRE_Q, ENTRIES, replay)
+        return
+    source_tie(ctx)
+    # Phase 1 (this thread, sequential): every call of the real code -- geometry cases first, then the four discrete
+    # entries, each in case order, so that the history sequences are consecutive calls of one process and the random
+    # numbers drawn from ctx.rng do not depend on scheduling.  Phase 2: coqc only -- the geometry certificates and the
+    # verdict files of the entries (two at a time) are compiled side by side.  Phase 3: the generic triage loop.
+    import threading
+    import time as _time
+    items = geometry_prepare(ctx, geometry_cases(ctx))
+    for ent in ENTRIES:
+        ent.prepare(ctx, 0)
+    box = {}
+
+    def guarded(name, fn):
+        def run_():
+            try:
+                fn()
+            except BaseException as e:  # noqa
+                box[name] = e
+        return threading.Thread(target=run_, name="C19-" + name)
+    ths = [guarded("geometry", lambda: geometry_certify(ctx, items)),
+           guarded("eval-a", lambda: [ENTRIES[k].evaluate(ctx, 0) for k in (1, 0)]),
+           guarded("eval-b", lambda: [ENTRIES[k].evaluate(ctx, 0) for k in (2, 3)])]
+    t0 = _time.time()
+    for th in ths:
+        th.start()
+    for th in ths:
+        th.join()
+    ctx.count("wall_s:coqc phase (geometry and entries side by side)", round(_time.time() - t0, 1))
+    for e in box.values():
+        raise e
+    differential(ctx, PRE_Q, ENTRIES, None)
